@@ -81,6 +81,7 @@ def dt_tag(y, mo=1, d=1, h=0, mi=0, s=0):
 def sonrs():
     U = M.universe()
     d = M.minimal(U["SONRS"])
+    d["kw"]["status"] = {"cls": "STATUS", "kw": {"code": ["int", 0], "severity": ["tok", "INFO"]}, "list": []}
     return d
 
 
